@@ -268,7 +268,11 @@ func (w *world) ctxDriver(nops int) {
 	c := w.c
 	for i := 0; i < nops && !c.Failed(); i++ {
 		w.maybeGate()
-		switch c.S.Plan(8) {
+		op := c.S.Plan(8)
+		if i == 0 && op > 2 && c.S.PlanP(800) {
+			op = 0 // most runs start by giving the container a context
+		}
+		switch op {
 		case 0, 1, 2:
 			tag := w.mkCtx()
 			restart := c.S.PlanP(400)
@@ -307,10 +311,16 @@ func (w *world) fnDriver(nops int) {
 	for i := 0; i < nops && !c.Failed(); i++ {
 		w.maybeGate()
 		k := c.S.Plan(8)
+		if i == 0 && c.S.PlanP(800) {
+			k = 0 // most runs start by installing a routine
+		}
+		if w.state && i == 1 && w.curState == 0 && c.S.PlanP(800) {
+			k = 3 // ... and a non-empty state
+		}
 		switch {
 		case !w.state && k < 6, w.state && k < 2:
 			rid, r, sr := w.newRoutine()
-			if c.S.PlanP(150) {
+			if i > 0 && c.S.PlanP(150) {
 				r, sr = nil, nil
 			}
 			inv := c.Tick()
@@ -336,6 +346,9 @@ func (w *world) fnDriver(nops int) {
 			}
 		case w.state && k < 6:
 			st := c.S.Plan(4) // 0 = empty state
+			if i == 1 && st == 0 {
+				st = 1
+			}
 			inv := c.Tick()
 			if c.S.PlanP(250) {
 				c.Descf("fn-driver: SwapValue(->%d)", st)
